@@ -15,7 +15,7 @@ NSIMS = 2000
 RULE = ('Engine A: lattice of experiment frames with cost columns: 4 shapes x n_pre in {4,6,10} x n_test in {1,3} x cooldown '
         'in {0,2} x use_cooldown x scenario in {fixed (pre-period and control test-period cost exactly 0), variable (costs O(10), '
         'strong cost effect), control-cost-only-in-cooldown, pre-period-cost (both groups), treatment-pre-cost-only, control-test-cost-only} x tails x level in {0.5,0.8,0.9,0.95} x '
-        'threshold in {0, 1.5} x random_state in {0,7} (quick: sub-grid). Oracle: fixed: estimate/lower/upper = response-effect '
+        'threshold in {0, 1.5} x random_state in {0,7} (quick: sub-grid) x object state in {fresh, already fitted to ANOTHER experiment (other cost scenario, other lengths) and asked for all reports}. Oracle: fixed: estimate/lower/upper = response-effect '
         'figures / incremental cost (closed form), incremental_response_{lower,upper} = bounds x cost; variable: two calls '
         'with the same integer random_state give identical reports; both: lower <= estimate <= upper (scope S1/S2), scenario '
         'label == fixed <=> the reference sees zero pre-period and control test-period cost, cost x a and response x b '
@@ -76,7 +76,28 @@ def cases(tier, seed):
                 for t, l, th, rs in settings:
                     out.append({'spec': {'shape': sh, 'npre': npre, 'ntest': ntest, 'ncool': ncool, 'seed': seed, 'lift': 10},
                                 'scen': scen, 'use_cooldown': use_cd, 'tails': t, 'level': l, 'threshold': th, 'random_state': rs})
+                    if thorough or rs == 0:
+                        out.append(dict(out[-1], state='refit'))
     return out
+
+
+def used_before(m, case):
+    """NON-INITIAL state of the analysis object: it has been fitted to ANOTHER experiment (other cost scenario, other period
+    lengths, other data) and asked for all its reports before it is fitted to this case's frame."""
+    spec = dict(case['spec'])
+    spec.update(npre=spec['npre'] + 2, ntest=spec['ntest'] + 1, ncool=2, shape='zigzag' if spec['shape'] != 'zigzag' else 'ramp', lift=3)
+    x, y, periods = frames.series(spec)
+    other = 'variable' if case['scen'] in ('fixed', 'control-cost-in-cooldown') else 'fixed'
+    cc, ct = cost_series(other, x, spec['npre'], spec['ntest'], spec['ncool'], spec.get('seed', 0))
+    m.fit(frames.build(0.5 * x, 2 * y, periods, cost_c=cc, cost_t=ct))
+    for call in (lambda: m.summary(level=0.8, tails=2, random_state=3, nsims=200),
+                 lambda: m.summary(level=0.9, tails=1, posterior_threshold=1.0, random_state=3, nsims=200),
+                 lambda: m.estimate_pointwise_and_cumulative_effect('tbr_response', level=0.8, tails=2),
+                 lambda: m.estimate_pointwise_and_cumulative_effect('tbr_cost', level=0.8, tails=2)):
+        try:
+            call()
+        except ValueError:
+            pass        # (known finding K1 of C18 may refuse a series report; irrelevant here)
 
 
 def make(case, a=1.0, b=1.0):
@@ -85,6 +106,8 @@ def make(case, a=1.0, b=1.0):
     cc, ct = cost_series(case['scen'], x, spec['npre'], spec['ntest'], spec.get('ncool', 0), spec.get('seed', 0))
     df = frames.build(b * x, b * y, periods, cost_c=a * cc, cost_t=a * ct)
     m = TBRiROAS(use_cooldown=case['use_cooldown'])
+    if case.get('state') == 'refit':
+        used_before(m, case)
     m.fit(df)
     return m, x, y, cc, ct, periods
 
